@@ -38,7 +38,7 @@ def run(ctx):
     ctx.trusted = ["Coq 8.16.1 kernel", "harness/view_x.py driver generator", "clang++ 14 -fsanitize=address,undefined"]
     ctx.assumptions = ["sanitizer runs are support, not proof: they name concrete failing inputs on the implementation side"]
     ctx.audit()
-    ctx.check_theorems("EmbossV.View.Properties_C04", "View/Properties_C04.v", expect_min=3)
+    ctx.check_theorems("EmbossV.View.Properties_C04", "View/Properties_C04.v", expect_min=5)
 
     n_mod = 120 if ctx.thorough() else 12
     n_buf = 12 if ctx.thorough() else 5
